@@ -758,3 +758,104 @@ func TestReplayC12SharedProfile(t *testing.T) {
 		}
 	}
 }
+
+// Added after the seventh round of seeded changes: templates no golden file pins. (a) A message that is nothing but one
+// placeholder, with values of every JSON type: the message stays a non-empty string. (b) Every constraint kind, failing, at top
+// level and inside a nested validation: each trace entry names a non-empty component. (c) Constraints on a path with an inverse
+// step, plain and nested: the path named by the trace entry is the path of the constraint as the profile wrote it (expanded),
+// inverse marker included.
+func TestReplayC12UnpinnedTemplates(t *testing.T) {
+	// (a)
+	data := c12Graph([]string{
+		c12Node("n1", "T", "age", `30`, "tag", `["x", "y"]`, "flag", `true`, "ratio", `1.5`, "ref", c12Refs("k1"), "name", `"Ann"`),
+		c12Node("k1", "K"),
+	})
+	ids, _ := c12Ids(data)
+	for _, ph := range []string{"{{ex.age}}", "{{ ex.tag }}", "{{ex.flag}}", "{{ex.ratio}}", "{{ex.ref}}", "{{ex.name}}", "{{ex.absent}}", "{{ex.age}}{{ex.name}}"} {
+		p := c12Head + "violation:\n  - v1\nvalidations:\n  v1:\n    targetClass: ex.T\n    message: \"" + ph + "\"\n    propertyConstraints:\n      ex.missing:\n        minCount: 1\n"
+		names, _ := c12Names(p)
+		scenario := "message that is only the placeholder " + ph
+		rep, err := Validate(p, data, false, nil)
+		if err != nil {
+			t.Errorf("C12 violated: %s: no report: %v", scenario, strings.Split(err.Error(), "\n")[0])
+			continue
+		}
+		if j := c12Report(t, scenario, rep, ids, names); j.results == 0 {
+			t.Errorf("C12 harness: %s: no result", scenario)
+		}
+	}
+	// (b) and (c)
+	data = c12Graph([]string{
+		c12Node("n1", "T", "p", `"zzz"`, "q", `"aaa"`, "num", `5`, "other", `3`, "child", c12Refs("k1")),
+		c12Node("k1", "K", "p", `"zzz"`, "q", `"aaa"`, "num", `5`, "other", `3`, "parent", c12Refs("n1")),
+	})
+	ids, _ = c12Ids(data)
+	kinds := []struct{ label, path, constraint string }{
+		{"minCount", "ex.none", "minCount: 1"}, {"maxCount", "ex.p", "maxCount: 0"}, {"exactCount", "ex.p", "exactCount: 2"},
+		{"pattern", "ex.p", "pattern: ^a"}, {"in", "ex.p", "in: [a]"}, {"containsAll", "ex.p", "containsAll: [a]"}, {"containsSome", "ex.p", "containsSome: [a]"},
+		{"minInclusive", "ex.num", "minInclusive: 9"}, {"maxInclusive", "ex.num", "maxInclusive: 1"}, {"minExclusive", "ex.num", "minExclusive: 5"}, {"maxExclusive", "ex.num", "maxExclusive: 5"},
+		{"minLength", "ex.p", "minLength: 9"}, {"maxLength", "ex.p", "maxLength: 1"}, {"datatype", "ex.p", "datatype: xsd.integer"},
+		{"lessThanProperty", "ex.num", "lessThanProperty: ex.other"}, {"lessThanOrEqualsToProperty", "ex.num", "lessThanOrEqualsToProperty: ex.other"},
+		{"equalsToProperty", "ex.num", "equalsToProperty: ex.other"}, {"disjointWithProperty", "ex.num", "disjointWithProperty: ex.num"},
+		{"moreThanProperty", "ex.other", "moreThanProperty: ex.num"}, {"moreThanOrEqualsToProperty", "ex.other", "moreThanOrEqualsToProperty: ex.num"},
+		{"minCount on an inverse path", "ex.none^", "minCount: 1"}, {"maxCount on an inverse path (top level)", "ex.parent^", "maxCount: 0"}, {"maxCount on an inverse path (nested)", "ex.child^", "maxCount: 0"},
+	}
+	for _, k := range kinds {
+		for _, nested := range []bool{false, true} {
+			if (nested && strings.HasSuffix(k.label, "(top level)")) || (!nested && strings.HasSuffix(k.label, "(nested)")) {
+				continue
+			}
+			body := "    propertyConstraints:\n      " + k.path + ":\n        " + k.constraint + "\n"
+			target := "ex.T"
+			scenario := "failing constraint " + k.label
+			if nested {
+				body = "    propertyConstraints:\n      ex.child:\n        nested:\n          propertyConstraints:\n            " + k.path + ":\n              " + k.constraint + "\n"
+				scenario += " inside a nested validation"
+			}
+			p := c12Head + "violation:\n  - v1\nvalidations:\n  v1:\n    targetClass: " + target + "\n    message: m\n" + body
+			names, _ := c12Names(p)
+			rep, err := Validate(p, data, false, nil)
+			if err != nil {
+				t.Errorf("C12 violated: %s: no report: %v", scenario, strings.Split(err.Error(), "\n")[0])
+				continue
+			}
+			if j := c12Report(t, scenario, rep, ids, names); j.results == 0 {
+				t.Errorf("C12 harness: %s: no result", scenario)
+			}
+		}
+	}
+	// (c) the path a trace entry names
+	for _, c := range []struct{ label, body, want string }{
+		{"nested on an inverse path", "    propertyConstraints:\n      ex.parent^:\n        nested:\n          propertyConstraints:\n            ex.none:\n              minCount: 1\n", "http://example.org/parent^"},
+		{"atLeast on an inverse path", "    propertyConstraints:\n      ex.parent^:\n        atLeast:\n          count: 1\n          validation:\n            propertyConstraints:\n              ex.none:\n                minCount: 1\n", "http://example.org/parent^"},
+		{"maxCount on an inverse path", "    propertyConstraints:\n      ex.parent^:\n        maxCount: 0\n", "http://example.org/parent^"},
+		{"minCount on a forward path", "    propertyConstraints:\n      ex.none:\n        minCount: 1\n", "http://example.org/none"},
+	} {
+		p := c12Head + "violation:\n  - v1\nvalidations:\n  v1:\n    targetClass: ex.T\n    message: m\n" + c.body
+		rep, err := Validate(p, data, false, nil)
+		if err != nil {
+			t.Errorf("C12 violated: %s: no report: %v", c.label, strings.Split(err.Error(), "\n")[0])
+			continue
+		}
+		var doc []map[string]any
+		if json.Unmarshal([]byte(rep), &doc) != nil || len(doc) == 0 {
+			continue
+		}
+		r := doc[0]["doc:encodes"].([]any)[0].(map[string]any)
+		res, _ := r["result"].([]any)
+		found := false
+		for _, x := range res {
+			m, _ := x.(map[string]any)
+			tr, _ := m["trace"].([]any)
+			for _, y := range tr {
+				tm, _ := y.(map[string]any)
+				if fmt.Sprint(tm["resultPath"]) == c.want {
+					found = true
+				}
+			}
+		}
+		if !found {
+			t.Errorf("C12 violated: %s: no trace entry of the result names the path %s of the failed constraint", c.label, c.want)
+		}
+	}
+}
